@@ -14,6 +14,7 @@ import (
 	"fmt"
 	"io"
 	"net/http"
+	"net/http/httptest"
 
 	"github.com/zeromicro/go-zero/rest/handler"
 
@@ -32,6 +33,14 @@ type crySpec struct {
 	Resp          []byte `json:"handler_response_plaintext"`
 	Writes        int    `json:"handler_write_calls"`
 	Status        int    `json:"handler_status"`
+	// writing style of the handler's answer ("" = plain Write calls) and where the middleware
+	// runs (nil = in-process on an httptest.ResponseRecorder); see crywrite_test.go
+	StyleName string `json:"handler_writing_style,omitempty"`
+	Wopt      *wopts `json:"handler_writing_options,omitempty"`
+	style     *wstyle
+	wopt      wopts
+	we        *wenv
+	srv       *bareServer
 }
 
 var respSizes = []int{0, 1, 2, 7, 15, 16, 17, 31, 32, 33, 100, 255, 256, 1000, 4095, 4096}
@@ -73,22 +82,57 @@ func runCryption(c *kit.Case, t tally, s crySpec) {
 		req.ContentLength = -1
 		req.TransferEncoding = []string{"chunked"}
 	}
-	p := &probe{resp: s.Resp, writes: s.Writes, status: s.Status}
-	rec, pan := serve(mw(protected(p)), req)
+	p := &probe{resp: s.Resp, writes: s.Writes, status: s.Status, style: s.style, wopt: s.wopt, we: s.we}
+	if s.style != nil {
+		o := s.wopt
+		s.Wopt = &o
+	}
+	var rec *httptest.ResponseRecorder
+	var pan string
+	where := "httptest.ResponseRecorder"
+	if s.srv != nil {
+		where = "httptest.NewServer(CryptionHandler(key)(handler))"
+		wreq, err := http.NewRequest(s.Method, s.srv.ts.URL+"/cryption", bytes.NewReader(s.Wire))
+		if err != nil {
+			c.Inconclusive("cannot build the request: " + err.Error())
+			return
+		}
+		st, pn, err := s.srv.do(mw(protected(p)), wreq)
+		if bad, why := p.sourceFailed(); bad {
+			c.Inconclusive("the handler's writing style could not obtain its payload (" + p.styleName() + "): " + why)
+			return
+		}
+		if err != nil {
+			c.Evals(1)
+			switch {
+			case timeoutErr(err):
+				c.Inconclusive("client watchdog fired while reading the response: " + err.Error())
+			case p.ran() && s.Kind == "valid":
+				t["cryption_responses_not_delivered_although_the_handler_ran"]++
+				viol(c, "C18/cryption/response-not-delivered/"+deliveryClass(p), fmt.Sprintf("the handler ran and answered %d bytes through %s, the client could not read the response: %v",
+					len(p.expected()), p.styleName(), err), map[string]any{"spec": specForWitness(s), "server": where, "client_error": err.Error(), "handler_saw_len": len(p.body)})
+			default:
+				t["cryption_requests_not_deliverable"]++
+			}
+			return
+		}
+		rec = httptest.NewRecorder()
+		rec.Code = st.code
+		rec.Body.Write(st.body)
+		pan = pn
+	} else {
+		rec, pan = serve(mw(protected(p)), req)
+		if bad, why := p.sourceFailed(); bad {
+			c.Inconclusive("the handler's writing style could not obtain its payload (" + p.styleName() + "): " + why)
+			return
+		}
+	}
 	ran := p.ran()
 	c.Evals(1)
 	t["cryption_requests"]++
 	t["cryption_kind_"+s.Kind]++
 	wit := func(extra string) map[string]any {
-		w := s
-		if len(w.Payload) > 256 {
-			w.Payload = nil // reproducible from the case seed; keep the line short
-			w.Wire = nil
-		}
-		if len(w.Resp) > 256 {
-			w.Resp = nil
-		}
-		return map[string]any{"spec": w, "payload_len": len(s.Payload), "wire_len": len(s.Wire), "response_plain_len": len(s.Resp),
+		return map[string]any{"spec": specForWitness(s), "server": where, "payload_len": len(s.Payload), "wire_len": len(s.Wire), "response_plain_len": len(s.Resp),
 			"observed": map[string]any{"handler_ran": ran, "status": rec.Code, "handler_saw_len": len(p.body), "handler_saw": clip(string(p.body), 120),
 				"response_wire": clip(rec.Body.String(), 160)}, "detail": extra}
 	}
@@ -98,7 +142,7 @@ func runCryption(c *kit.Case, t tally, s crySpec) {
 	}
 	switch s.Kind {
 	case "valid":
-		c.Sig(true, "cryption", len(s.Payload), len(s.key), sizeClass(len(s.Resp)), s.Writes > 1, s.UnknownLength, ran)
+		c.Sig(true, "cryption", len(s.Payload), len(s.key), sizeClass(len(s.Resp)), s.Writes > 1, s.UnknownLength, ran, p.styleName(), s.srv != nil)
 		if pan != "" {
 			viol(c, "C18/panic/cryption/valid-body/"+cls, "the encryption handler panicked on a correctly encrypted body", wit(pan))
 			return
@@ -119,10 +163,21 @@ func runCryption(c *kit.Case, t tally, s crySpec) {
 			t["cryption_bodies_seen_decrypted"]++
 		}
 		rcls := ""
-		if s.UnknownLength {
+		switch {
+		case s.UnknownLength:
 			rcls = cls
+		case s.style != nil && s.style.DeclaresLength && len(s.Resp) > 0:
+			rcls = "handler-declared-content-length"
+		case s.style != nil && s.style.Class != "write":
+			rcls = "written-via-" + s.style.Class
 		}
-		checkEncryptedResponse(c, "C18/cryption", rcls, s.key, s.Resp, rec.Body.Bytes(), wit(""))
+		if s.style != nil {
+			t["cryption_responses_compared_style_class_"+s.style.Class]++
+			if s.srv != nil {
+				t["cryption_responses_compared_on_a_real_server_style_class_"+s.style.Class]++
+			}
+		}
+		checkEncryptedResponse(c, "C18/cryption", rcls, s.key, p.expected(), rec.Body.Bytes(), wit(p.styleName()))
 		if s.Status != 0 && rec.Code != s.Status {
 			t["cryption_obs_handler_status_not_passed_through"]++
 		}
@@ -173,6 +228,19 @@ func runCryption(c *kit.Case, t tally, s crySpec) {
 			t[fmt.Sprintf("cryption_obs_refused_%d_on_%s", rec.Code, s.Kind)]++
 		}
 	}
+}
+
+// specForWitness: the spec without its long byte strings (reproducible from the case seed).
+func specForWitness(s crySpec) crySpec {
+	w := s
+	if len(w.Payload) > 256 {
+		w.Payload = nil
+		w.Wire = nil
+	}
+	if len(w.Resp) > 256 {
+		w.Resp = nil
+	}
+	return w
 }
 
 // cryptionSizesCase: payload sizes [lo,hi), one request each (exhaustive over 0..4096 in both tiers).
